@@ -15,7 +15,8 @@ RULE = ("r0 log-uniform [0.01,5], L0 log-uniform [0.1,1e10] (the large-L0 tail o
         "small arguments), numerical Hankel transform of the screen spectrum, scaling / monotonicity / saturation "
         "relations, eigenvalues. Non-trivial = array input spanning r < L0/100 and r > L0, or a point set with >= 5 "
         "points, or an exact zero separation. Distinct = canonical JSON."
-        " Also: separations at which 2 pi r / L0 is a round number to the last bit (and their neighbours).")
+        " Also: separations at which 2 pi r / L0 is a round number to the last bit (and their neighbours)."
+        " Fortran-ordered and transposed-view 2-D separation arrays.")
 ASSUMPTIONS = ["published constants are rounded: 0.17253 vs 0.172629 (5.7e-4), 0.023 vs 0.022896 (4.6e-3), 6.88 vs 6.8839 (5.7e-4): ratios must lie in the rounding band AND be constant across arguments",
                "phase_covariance is evaluated in double precision at the separations it is given (since fix c71a5fd): tolerance 1e-12 of B(0); positive semi-definite to n 64 eps64 B(0)",
                "structure_function_vk accepts floats and ndarrays (not lists), phase_covariance also lists"]
